@@ -55,6 +55,14 @@ WITNESSES = [
      "expect": {"py": "(lambda ids: '' if ids == [1, 2, 3, 5, 8, 9, 6, 7] else 'responses carry ids %r, expected one each for the requests 1, 2, 3, 5, 8, 9, 6, 7 (8 and 9 are notification methods sent with an id) and none for notifications or for the response-shaped message 4' % (ids,))([o.get('id') for o in jsons(full_out) if 'id' in o])"},
      "note": "one response per request in order, none for notifications"},
 ]
+_SWEEP = common.lsp_sweep_witnesses(r"lspmsg\.", ["C28"])
+WITNESSES.append({"match": r"lspmsg\.", "kind": "lsp-sweep", "props": ["C28"], "input": _SWEEP, "expect": {}, "timeout": 600,
+                  "note": "position sweeps over %d documents" % len(_SWEEP)})
+BOUNDED = [
+    {"name": "position_sweep", "kind": "lsp-sweep", "props": ["C28"], "input": _SWEEP, "n_inputs": sum(len(w["input"]) for w in _SWEEP),
+     "bound": "%d LSP sessions (ASCII, astral characters, CRLF, a document with a parse error and no trailing newline, an empty document, blank lines): every position request (completion, definition, hover, signatureHelp, documentHighlight, references, rename, codeAction) at every UTF-16 column of every line, past the end of each line and of the document, then documentSymbol, formatting and shutdown: %d requests, each must get exactly one response with its id and the server must survive" % (len(_SWEEP), sum(len(w["input"]) for w in _SWEEP)),
+     "expect": {}},
+]
 
 
 def build(tier):
